@@ -166,10 +166,15 @@ class LinalgShim:
         M = np.asarray(M)
         if M.dtype != object and not self._owner.force_sym_cond:
             return np.linalg.cond(M, *a, **k)
-        c = Ctx.cur.fresh('cond')
-        Ctx.cur.assume(c.t >= 1)
+        # a deterministic function of the matrix: the same entries give the same (arbitrary) value
+        memo = Ctx.cur.notes.setdefault('cond_memo', {})
+        key = '|'.join(z3.simplify(tz(x)).sexpr() if isinstance(x, (SymReal,)) else repr(x) for x in M.flat)
         Ctx.cur.log.append(('cond', M))
-        return c
+        if key not in memo:
+            c = Ctx.cur.fresh('cond')
+            Ctx.cur.assume(c.t >= 1)
+            memo[key] = c
+        return memo[key]
 
 
 def _det(M):
